@@ -572,6 +572,31 @@ def _hasnan(eng, st, a):
 _MWTHR = z3.Function("MWTHR", _I, _I, _I, _R, _R)
 SPEC_FUNCS["MWTHR"] = lambda eng, st, n, p, b, level: _MWTHR(to_z3(n), to_z3(p), to_z3(b), to_z3(to_real(level)))
 _QUANT = z3.Function("QUANTILE", _I, _R, _R)      # np.quantile(scores-array id, q)
+SPEC_FUNCS["QUANTILE"] = lambda eng, st, aid, q: _QUANT(to_z3(aid), to_z3(to_real(q)))
+# MWQ(tok, bandwidth, n, q): the q-quantile of the moving-window scores (C08's definition) of the fit `tok` on n rows
+_MWQ = z3.Function("MWQ", _I, _I, _I, _R, _R)
+SPEC_FUNCS["MWQ"] = lambda eng, st, tok, b, n, q: _MWQ(to_z3(tok), to_z3(b), to_z3(n), to_z3(to_real(q)))
+
+
+@spec("AX_mwq")
+def _ax_mwq(eng, st, a, tok, b, n, q):
+    """Definition of MWQ as an axiom instance: if a has n entries and a[t] is the moving-window score at t (column-summed change score of
+    the cut (t-b, t, t+b) for b <= t <= n-b, 0 elsewhere) then QUANTILE(a, q) == MWQ(tok, b, n, q).  Premises are obligations of each use;
+    what is assumed is that np.quantile depends on the values of its array only."""
+    from pyvc.state import fresh_int
+    t = fresh_int("t")
+    tokz, bz, nz = to_z3(tok), to_z3(b), to_z3(n)
+    at = to_z3(to_real(a.get(t)))
+    want = z3.If(z3.And(bz <= t, t <= nz - bz), _AGG[3](tokz, t - bz, t, t + bz), z3.RealVal(0))
+    prem = [to_z3(a.shape[0]) == nz,
+            z3.ForAll([t], z3.Implies(z3.And(0 <= t, t < nz), at == want), patterns=[at])]
+    concl = _QUANT(to_z3(SPEC_FUNCS["arrid"](eng, st, a)), to_z3(to_real(q))) == _MWQ(tokz, bz, nz, to_z3(to_real(q)))
+    eng.note_assumption("definition of MWQ: the quantile of the moving-window scores; np.quantile depends only on the values of its array "
+                        "(axiom AX_mwq; premises proved per use)")
+    return LemmaInst("AX_mwq", prem, concl)
+
+
+LEMMA_PROOFS["AX_mwq"] = lambda: []
 
 
 # ----------------------------------------------------------------------------- affected components (C16)
